@@ -18,6 +18,11 @@ def run(ctx):
     out = P.run_chunks(ctx, "soup", cases, "soup", chunk=ctx.pick(20000, 60000), par=ctx.pick(2, 4),
                        timeout=ctx.pick(900, 3000))
     summaries = [o["summary"] for o in out if "summary" in o]
+    hangs = [o for o in out if o.get("fail") == "hang"]
+    if hangs:
+        # no tree at all: reported here too (C02 owns termination); nothing else can be judged in this run
+        ctx.violation("C01/no-tree/hang", {"count": len(hangs), "first": hangs[0]})
+        return
     if sum(s["cases"] for s in summaries) != len(cases):
         raise vlib.ToolError("vh_parse soup judged %d of %d cases" % (sum(s["cases"] for s in summaries), len(cases)))
     ctx.cov["evaluations"] += sum(s["parses"] for s in summaries)
@@ -40,6 +45,7 @@ def run(ctx):
     # (3) trace validation: recorded lexer tokens + mark events + tree of real parses judged by ParserTrace.tla
     tcases = P.pick_trace_cases(ctx, cases, ctx.pick(400, 4000))
     verdicts, panics, tpath = P.record_and_validate(ctx, tcases)
+    P.trace_corruption_selftest(ctx, tpath)
     ctx.validated(len(verdicts))
     tviol = {}
     stats = {"bal": 0, "eat": 0, "tile": 0, "root": 0, "tree_eq": 0, "pred_lossless": 0, "early": 0, "crossed": 0}
